@@ -25,12 +25,16 @@ Counts(e) == <<e.rd, e.ln, e.it, e.repr, e.other>>
 Passes(e) == IF e.path = "reject" /\ e.entry # "is" THEN 2 ELSE 1
 ReprBound(e) == IF e.path = "reject" /\ e.entry # "is" THEN 2 * (1 + Nodes(e.h)) ELSE 0
 
+\* The explanation of a rejection may re-read the item it blames once per hint node (e.g. ItemsView[k, v] is
+\* checked as a collection of 2-tuples *and* by class, so a non-view collection is sampled before the class
+\* test rejects it, and the cause finder revisits the blamed tuple): a hint-only constant, never the size.
+Slack(e) == IF e.path = "reject" /\ e.entry # "is" THEN Nodes(e.h) ELSE 0
 Allowed(e) ==
   /\ e.bad = 0                                        \* C10: no forbidden operation
   /\ e.mutated = FALSE                                \* C10: subject as it was found
-  /\ e.rd <= Passes(e) * ReadBound(e.h)               \* C09: items read
+  /\ e.rd <= Passes(e) * (ReadBound(e.h) + Slack(e))  \* C09: items read
   /\ e.ln <= Passes(e) * LenBound(e.h) + 2
-  /\ e.it <= Passes(e) * ReadBound(e.h)
+  /\ e.it <= Passes(e) * (ReadBound(e.h) + Slack(e))
   /\ e.repr <= ReprBound(e)
   /\ e.maxobj <= Passes(e) * Nodes(e.h)               \* reads of any single container object
 
